@@ -45,6 +45,8 @@ RESULT_VECTORS = {
     "AR": [ACC, REJ],
     "RA": [REJ, ACC],
     "RR": [REJ, REJ],
+    "NA": [NEG, ACC],
+    "NN": [NEG, NEG],
     "A": [ACC],
     "AAA": [ACC, ACC, ACC],
     "none": [],
@@ -69,6 +71,7 @@ def plan(tier, seed):
         for api in ("sync", "async"):
             # quick/async: the deepest level is sampled with a rotating stride (every element still occurs under some prefix)
             specs.append({"name": f"tree-p{pi}-{api}", "kind": "tree", "provider": pi, "api": api, "depth": depth, "stride": (6 if api == "async" else 2) if tier == "quick" else (48 if api == "async" else 16)})
+    specs.append({"name": "long", "kind": "long", "max_legs": 12 if tier == "quick" else 40})
     specs.append({"name": "real", "kind": "real", "n": 6 if tier == "quick" else 60})
     return specs
 
@@ -90,7 +93,7 @@ def alphabet(position: int) -> t.List[tuple]:
     right = "bind_ack" if position == 0 else "alter_context_resp"
     wrong = "alter_context_resp" if position == 0 else "bind_ack"
     out = []
-    vecs = ["AN", "AR", "RA", "RR", "A", "AAA", "none"] if position == 0 else ["AN", "A", "RR", "none"]
+    vecs = ["AN", "AR", "RA", "RR", "NA", "NN", "A", "AAA", "none"] if position == 0 else ["AN", "A", "RR", "none"]
     for vec in vecs:
         for sign in (True, False):
             for token in (True, False):
@@ -243,7 +246,7 @@ class Harness:
 def judge(rec: Recorder, provider_idx: int, script: t.Sequence[tuple], api: str, out, isd_sent: t.List[bytes], ctx: tr.ScriptedContext) -> dict:
     provider = PROVIDERS[provider_idx]
     exp = reference(provider, script)
-    wit = {"provider": provider_idx, "script": [list(e) for e in script], "api": api}
+    wit = {"provider": provider_idx, "provider_script": [[tk for tk in provider[0]], provider[1]], "script": [list(e) for e in script], "api": api}
     bad = lambda mech, msg: rec.violation(mech, f"{msg} [script {script}, provider {provider_idx}, {api}]", wit)  # noqa: E731
     rec.count("scripts_executed")
     if out[0] in ("spin", "timeout"):
@@ -348,6 +351,39 @@ def run_tree(spec, rec: Recorder):
         h.close()
 
 
+def run_long(spec, rec: Recorder):
+    """Providers that need many legs (5..max): the happy path to the request plus one deviation at each position
+    (no token, header-sign dropped, rejection, fault, EOF) - the tree enumeration stops at 4 legs."""
+    h = Harness()
+    n = 0
+    try:
+        for legs in range(5, spec["max_legs"] + 1):
+            for final_empty in (False, True):
+                tokens = tuple(b"L%d" % k for k in range(legs - 1)) + ((b"",) if final_empty else (b"L%d" % (legs - 1),))
+                PROVIDERS.append((tokens, legs))
+                pi = len(PROVIDERS) - 1
+                need = legs - 1 if not final_empty else legs - 2  # number of alter_context replies consumed
+                base = [ack_elem("bind_ack", "AN", True, True)] + [ack_elem("alter_context_resp", "AN", True, True) for _ in range(max(0, need))]
+                variants = [tuple(base)]
+                for pos in sorted({1, len(base) // 2, len(base) - 1} - {0}):
+                    if pos < len(base):
+                        for dev in (ack_elem("alter_context_resp", "AN", True, False), ack_elem("alter_context_resp", "AN", False, True), ("fault",), ("bind_nak",), ("eof",), ack_elem("bind_ack", "AN", True, True)):
+                            variants.append(tuple(base[:pos]) + (dev,) + tuple(base[pos + 1 :]))
+                for script in variants:
+                    for api in ("sync", "async") if legs in (5, 8, 9, spec["max_legs"]) else ("sync",):
+                        exp = reference(PROVIDERS[pi], script)
+                        if exp.get("incomplete_script"):
+                            continue
+                        out, sent, ctx = h.run(PROVIDERS[pi], script, api)
+                        judge(rec, pi, script, api, out, sent, ctx)
+                        n += 1
+                        rec.case((legs, final_empty, script, api), nontrivial=True)
+                rec.seen("long_provider_legs", legs)
+        rec.sample({"kind": "long providers", "legs": f"5..{spec['max_legs']}", "scripts": n})
+    finally:
+        h.close()
+
+
 def run_real(spec, rec: Recorder):
     """Real NTLM (3 legs) and SPNEGO (empty final token) handshakes against the reference DC over TCP."""
     import dpapi_ng
@@ -393,7 +429,7 @@ def run_real(spec, rec: Recorder):
 def run_shard(spec, rec: Recorder):
     if not common.calibrate(rec, "rpc", "gkdi", "cms"):
         return
-    {"tree": run_tree, "real": run_real}[spec["kind"]](spec, rec)
+    {"tree": run_tree, "real": run_real, "long": run_long}[spec["kind"]](spec, rec)
 
 
 def replay(body, rec: Recorder):
@@ -404,8 +440,12 @@ def replay(body, rec: Recorder):
     h = Harness()
     try:
         script = tuple(tuple(e) for e in w["script"])
-        out, sent, ctx = h.run(PROVIDERS[w["provider"]], script, w["api"])
-        judge(rec, w["provider"], script, w["api"], out, sent, ctx)
+        pi = w["provider"]
+        if pi >= len(PROVIDERS) and "provider_script" in w:
+            toks = tuple(bytes.fromhex(x["hex"]) if isinstance(x, dict) else x for x in w["provider_script"][0])
+            PROVIDERS.extend([PROVIDERS[0]] * (pi - len(PROVIDERS)) + [(toks, w["provider_script"][1])])
+        out, sent, ctx = h.run(PROVIDERS[pi], script, w["api"])
+        judge(rec, pi, script, w["api"], out, sent, ctx)
         rec.case(("replay", 1))
     finally:
         h.close()
